@@ -35,6 +35,11 @@ PAIRS = {
     "schema->schema": (lambda: Table("old", schema="sc"), lambda: Table("old", schema="sc2")),
     # the replaced table is merged into the table every other slot already uses (a multi-table statement becomes single-table)
     "plain->oth": (lambda: Table("old"), lambda: Table("oth")),
+    # near twins by path: the other table's schema path is a proper suffix / prefix-less form of old's, or old's qualified name
+    # written as one dotted name
+    "deep_schema->plain/suffix": (lambda: Table("old", schema=("live", "db", "sch")), lambda: Table("new")),
+    "schema2->plain/longer": (lambda: Table("old", schema=("db", "sch")), lambda: Table("new")),
+    "schema->plain/dotted": (lambda: Table("old", schema="sc"), lambda: Table("new")),
     "none->table": (lambda: None, lambda: Table("new")),
     "none->aliased": (lambda: None, lambda: Table("new", alias="nw")),  # (an aliased table is qualified even where names stay bare)
     "table->none": (lambda: Table("old"), lambda: None),
@@ -55,6 +60,9 @@ NEAR_TWINS = {
     "deep4_schema->plain": lambda: Table("old", schema=("srv2", "inst", "db", "sch")),
     "aliased->aliased": lambda: Table("old", alias="o2"),
     "schema->schema": lambda: Table("old"),
+    "deep_schema->plain/suffix": lambda: Table("old", schema=("db", "sch")),
+    "schema2->plain/longer": lambda: Table("old", schema=("live", "db", "sch")),
+    "schema->plain/dotted": lambda: Table("sc.old"),
 }
 
 
@@ -101,6 +109,21 @@ def s_insert(tab, Q=Query):
     return (Q.into(t("into")).columns(fld(t("columns"), "a"), fld(t("columns"), "b")).insert(fld(t("values"), "v"), 1)
             .on_conflict(fld(t("conflict_target"), "id")).do_update(fld(t("do_update_field"), "a"), fld(t("do_update_value"), "dv") + 1)
             .where(fld(t("conflict_where"), "cw") > 0))
+
+
+def s_shared_terms(tab, Q=Query):
+    """one column object in several clauses (the user kept it in a variable)"""
+    t = tab
+    col, col2 = fld(t("col"), "x"), fld(t("col2"), "y")
+    expr = col2 + 1
+    return (Q.from_(t("from")).select(col, expr).where(col > 1).groupby(col, expr).having(FN.Count(col) > 0).orderby(col).orderby(expr))
+
+
+def s_update_set_twice(tab, Q=Query):
+    """one column assigned twice (and a column of another table of the same name assigned as well)"""
+    t = tab
+    return (Q.update(t("update")).set(fld(t("set_lhs"), "counter"), 0).set(fld(t("set_lhs2"), "name"), fld(t("set_rhs"), "r"))
+            .set(fld(t("set_lhs3"), "counter"), fld(t("set_rhs3"), "counter") + 1).where(fld(t("where"), "w") == 3))
 
 
 def s_insert_both_wheres(tab, Q=Query):
@@ -291,7 +314,7 @@ def s_delete_using(tab, Q=Query):
 # built with `new` in the None slot; the three shapes below hold further table-less items ('*', columns by name), for them only
 # the clause structure is compared
 NONE_STRUCTURAL = {"pg_returning_star", "select2", "cte", "cte_insert_values"}
-STMTS = {f.__name__[2:]: f for f in (s_insert_both_wheres, s_insert_target_where_only, s_cte_update, s_cte_insert_values, s_cte_delete, s_cte_terms, s_setop_nested, s_setop_nested_top, s_update_where_foreign, s_from_multi, s_from_first_multi, s_on_subquery, s_update_set_subquery, s_twins, s_nested, s_from_nested, s_pg_returning_star, s_pg_insert_returning, s_delete_using, s_select, s_select2, s_cross, s_cte, s_insert, s_insert_select, s_update, s_update_from, s_update_join,
+STMTS = {f.__name__[2:]: f for f in (s_shared_terms, s_update_set_twice, s_insert_both_wheres, s_insert_target_where_only, s_cte_update, s_cte_insert_values, s_cte_delete, s_cte_terms, s_setop_nested, s_setop_nested_top, s_update_where_foreign, s_from_multi, s_from_first_multi, s_on_subquery, s_update_set_subquery, s_twins, s_nested, s_from_nested, s_pg_returning_star, s_pg_insert_returning, s_delete_using, s_select, s_select2, s_cross, s_cte, s_insert, s_insert_select, s_update, s_update_from, s_update_join,
                                       s_delete, s_pg_returning, s_pg_distinct_on, s_setop)}
 
 
